@@ -108,8 +108,12 @@ class RegexFacade:
         self.compiles = 0
         self.real_timeout = 5.0       # never reached: the real engine only sees subject_cap characters
         self.subject_cap = 14
+        self.inject_timeouts = False
+        self.timeouts_injected = 0
 
     def reset(self, mode='pass'):
+        self.inject_timeouts = False
+        self.timeouts_injected = 0
         self.mode = mode
         self.clock = 0.0
         self.entries = []
@@ -122,8 +126,24 @@ class RegexFacade:
         if ok:
             VCLOCK.advance(float(timeout))      # worst case: the engine used its whole allowance
 
+    def should_time_out(self, pattern, subject):
+        """Fault injection: for an adversarial (pattern, subject) pair the stub engine behaves as the real one does when
+        it honours its timeout - it raises TimeoutError once the allowance is spent."""
+        return self.inject_timeouts and isinstance(subject, str) and isinstance(pattern, str) and \
+            len(subject) > self.subject_cap and any(m in pattern for m in ('+)+', '*)*', ')+$', '+)*', '){1,50}', '|a)*', '|aa)+', ')+(', '(.*a)'))
+
 
 REGEX = RegexFacade()
+
+
+def _partial_then_timeout(it):
+    """An iterator that hands out the first real match and then times out (the engine ran out of its allowance while
+    looking for the next one)."""
+    for i, m in enumerate(it):
+        if i >= 1:
+            break
+        yield m
+    raise TimeoutError('regex engine timeout (injected by the simulator)')
 
 
 class _PatternProxy:
@@ -142,8 +162,14 @@ class _PatternProxy:
                     k['timeout'] = REGEX.real_timeout
                     a = list(a)
                     si = 1 if name in ('sub', 'subn', 'subf', 'subfn') else 0
+                    full = a[si] if len(a) > si else None
                     if len(a) > si and isinstance(a[si], str):
                         a[si] = a[si][:REGEX.subject_cap]
+                    if REGEX.should_time_out(getattr(self._pat, 'pattern', None), full) and k.get('timeout') is not None:
+                        REGEX.timeouts_injected += 1
+                        if name in ('finditer', 'splititer'):
+                            return _partial_then_timeout(real(*a, **k))
+                        raise TimeoutError('regex engine timeout (injected by the simulator)')
                 else:
                     REGEX.entries.append(('pattern.' + name, k.get('timeout'), 0, 0))
                 return real(*a, **k)
@@ -160,6 +186,8 @@ def _install_re_facade():
         real = getattr(_re, name)
 
         def entry(*a, _real=real, _name=name, **k):
+            if a and type(a[0]).__name__ == '_RePattern':
+                a = (a[0]._pat,) + tuple(a[1:])
             if REGEX.mode == 'virtual':
                 plen = len(a[0]) if a and isinstance(a[0], str) else 0
                 si = 2 if _name in ('sub', 'subn') else 1
@@ -172,6 +200,41 @@ def _install_re_facade():
         entry.__name__ = name
         entry.__wrapped__ = real
         setattr(_re, name, entry)
+    real_compile = _re.compile
+
+    class _RePattern:
+        def __init__(self, pat):
+            self.__dict__['_pat'] = pat
+
+        def __getattr__(self, nm):
+            real = getattr(self._pat, nm)
+            if nm in ('search', 'match', 'fullmatch', 'findall', 'finditer', 'sub', 'subn', 'split'):
+                def entry(*a, **k):
+                    if REGEX.mode != 'virtual':
+                        return real(*a, **k)
+                    si = 1 if nm in ('sub', 'subn') else 0
+                    subj = a[si] if len(a) > si else ''
+                    REGEX.charge('re.pattern.' + nm, None, len(self._pat.pattern) if isinstance(self._pat.pattern, str) else 0,
+                                 len(subj) if isinstance(subj, str) else 0)
+                    a = list(a)
+                    if len(a) > si and isinstance(a[si], str):
+                        a[si] = a[si][:REGEX.subject_cap]
+                    return real(*a, **k)
+                return entry
+            return real
+
+    def compile_(*a, **k):
+        pat = real_compile(*a, **k)
+        if REGEX.mode == 'virtual':
+            return _RePattern(pat)
+        # patterns the library compiles for itself (at import or later; PLY's lexer excluded) are proxied as well, so
+        # that their use DURING a C05 run is seen; the proxy is a pass-through outside virtual mode
+        fn = sys._getframe(1).f_code.co_filename.replace(os.sep, '/')
+        if '/smartquery/' in fn and '/smartquery/ply/' not in fn:
+            return _RePattern(pat)
+        return pat
+    compile_.__wrapped__ = real_compile
+    _re.compile = compile_
 
 
 def _install_regex():
@@ -196,8 +259,14 @@ def _install_regex():
                 # depends on a real clock (results stay realistic for short subjects, the common case)
                 a = list(a)
                 si = 2 if _name in ('sub', 'subn', 'subf', 'subfn') else 1
+                full = a[si] if len(a) > si else None
                 if len(a) > si and isinstance(a[si], str):
                     a[si] = a[si][:REGEX.subject_cap]
+                if REGEX.should_time_out(a[0] if a else None, full) and k.get('timeout') is not None:
+                    REGEX.timeouts_injected += 1
+                    if _name in ('finditer', 'splititer'):
+                        return _partial_then_timeout(_real(*a, **k))
+                    raise TimeoutError('regex engine timeout (injected by the simulator)')
             else:
                 REGEX.entries.append((_name, k.get('timeout'), 0, 0))
             return _real(*a, **k)
